@@ -120,6 +120,21 @@ func (c *c05Ctx) fileLevel(dir string) {
 		b := bases[bi]
 		for _, li := range c.seq(len(layers)) {
 			l := layers[li]
+			stateless := b.name == "mem" && l.name != "proofs-cache" && l.name != "store-wrap"
+			passThrough := l.name == "close-once" || l.name == "validation"
+			// close-once and validation keep no data of their own: they are stacked on the in-memory and the
+			// ODS+Q4 accessor only (and are part of store-wrap on every base); representations without any
+			// state get one pass; the reverse-order scenario is run for the stateful ones.
+			if passThrough && b.name != "mem" && b.name != "odsq4" {
+				continue
+			}
+			if c.rev && (stateless || passThrough) {
+				continue
+			}
+			passes := []string{"cold", "warm"}
+			if stateless {
+				passes = []string{"cold"}
+			}
 			ri := &c05Rep{name: "file:" + b.name + "/" + l.name, class: b.name + "/" + l.name, validated: l.validated}
 			c.twoPasses(ri, func() (eds.AccessorStreamer, error) {
 				x, err := b.open()
@@ -129,7 +144,7 @@ func (c *c05Ctx) fileLevel(dir string) {
 				acc, spy := l.mk(x, c.N)
 				ri.spy = spy
 				return acc, nil
-			})
+			}, passes...)
 		}
 	}
 
@@ -257,7 +272,7 @@ func (c *c05Ctx) storeLevel(dir string) {
 		c.infra("NewStore(reopen 2): %v", err)
 		return
 	}
-	c.twoPasses(rep("reopen-pruned/GetByHeight"), byHeight(stC, c05Height))
+	c.twoPasses(rep("reopen-pruned/GetByHeight"), byHeight(stC, c05Height), "cold")
 	if neighbour {
 		c.checkNeighbour(rep("reopen-pruned/neighbour"), stC)
 	}
